@@ -146,5 +146,5 @@ func pinReference(ctx *vrun.Ctx) error {
 			ctx.Violation("ellswift:decode-vector", fmt.Sprintf("ellswift.XSwiftEC disagrees with BIP324 decode vector %d (err=%v)", i, err), d)
 		}
 	}
-	return nil
+	return pinDecodeVectors(ctx, &vf)
 }
